@@ -479,7 +479,9 @@ static void srv_to_csv(vh_rng_t *r, const cfg_srv_t *s, int n, cfg_bb_t *out)
       /* URI form */
       cfg_bb_str(out, "dns://");
       if (s[i].family == AF_INET6) {
-        cfg_bb_printf(out, "[%s%s%s]", s[i].text, s[i].iface[0] ? "%25" : "", s[i].iface);
+        /* the zone is written with a bare '%' as in ares_set_servers_csv.3
+         * ("dns://[fe80::b542:84df:1719:65e3%en0]") and as ares_get_servers_csv() renders it */
+        cfg_bb_printf(out, "[%s%s%s]", s[i].text, s[i].iface[0] ? "%" : "", s[i].iface);
       } else {
         cfg_bb_str(out, s[i].text);
       }
